@@ -1,2 +1,2 @@
-import NipyVerif.Model.C09
-def main : IO Unit := NipyVerif.driverLoop NipyVerif.C09.run
+import NipyVerif.Model.C09Opt
+def main : IO Unit := NipyVerif.driverLoop NipyVerif.C09.runAll
